@@ -38,7 +38,7 @@ TIMEOUT = {"quick": 900, "thorough": 7200}
 MIN_CASES = {"quick": 5000, "thorough": 100000}
 REQUIRED_COUNTERS = ["requests_completed_with_own_response", "requests_failed_disconnected", "callers_cancelled", "events_delivered", "timeouts_fired", "stale_answers_dropped", "reconnects", "connections_abandoned", "peer_resets", "cancel_races_response"]
 
-ALPHABET = "RAPHEFGCTXUZKW"
+ALPHABET = "RAPHEFGCTXUZKWQ"
 
 
 class Scenario:
@@ -177,6 +177,18 @@ class Scenario:
                     rq["cancelled"] = True
                     rq["task"].cancel()
                     must_abandon = [r["conn"] for r in self.received if r["id"] == uid and r["answered"] < 2 and r["conn"].is_open]
+                    break
+        elif a == "Q":
+            # the YOUNGEST pending caller gives up - with one request at a time on the wire that is a caller still queued
+            # behind the others, of whose request not a byte has been written
+            for uid in sorted(self.reqs, reverse=True):
+                rq = self.reqs[uid]
+                if not rq["task"].done():
+                    rq["cancelled"] = True
+                    rq["task"].cancel()
+                    must_abandon = [r["conn"] for r in self.received if r["id"] == uid and r["answered"] < 2 and r["conn"].is_open]
+                    if not any(r["id"] == uid for r in self.received):
+                        ctx.count("queued_callers_cancelled")
                     break
         elif a == "W":
             await asyncio.sleep(12)  # time passes, no timer of a fresh request expires: later requests are YOUNGER than earlier ones
@@ -357,6 +369,15 @@ class Scenario:
             ctx.count("events_delivered", len(vals))
             if any(v not in self.events_sent for v in vals) or len(set(vals)) != len(vals) or vals != sorted(vals):
                 ctx.violation("event-stream-corrupted", f"listener values {vals} vs sent {self.events_sent}", replay)
+            # ground truth on the accessory side: nothing in these schedules damages what the controller sends, so every frame
+            # that arrives must authenticate at the accessory's own counter (a request sealed but never sent, or sent out of
+            # turn, shows up here - and costs the next caller its request)
+            for c in w.accessory.conns:
+                if c.decode_errors:
+                    ctx.violation("request-stream-rejected-by-accessory", f"schedule {self.schedule}: connection {c.index}: the reference accessory could not accept a frame the controller sent: {c.decode_errors[0]}", replay)
+                    break
+            else:
+                ctx.count("request_streams_accepted_by_accessory", len([c for c in w.accessory.conns if c.secure]))
             ctx.count("reconnects", max(0, len([c for c in w.accessory.conns if c.secure]) - 1))
             if "T" in self.schedule:
                 ctx.count("timeouts_fired", sum(1 for rq in self.reqs.values() if rq["exc"] is not None and "Timeout while waiting" in str(rq["exc"])))
@@ -370,7 +391,7 @@ class Scenario:
 
 
 def nontrivial(schedule: str) -> bool:
-    return any(ch in schedule for ch in "PHEFGCTXUZK")
+    return any(ch in schedule for ch in "PHEFGCTXUZKQ")
 
 
 async def run_one(ctx, schedule: str, api: str, key) -> None:
@@ -403,7 +424,7 @@ def run(ctx) -> None:
         rng = ctx.rng("C08.random")
         for k in range(ctx.pick(4000, 300000) // ctx.nshards):
             n = rng.randint(6, 30)
-            schedule = "R" + "".join(rng.choice("RRRAAPHEFGCTXUZKW") for _ in range(n))
+            schedule = "R" + "".join(rng.choice("RRRAAPHEFGCTXUZKWQ") for _ in range(n))
             await run_one(ctx, schedule, rng.choice(["connection", "pipelined", "pipelined", "pairing"]), ("rand", ctx.shard, k))
 
     vloop.run(main())
